@@ -356,10 +356,19 @@ def arc_vs_chord(d, tol_hi=1.25):
         two = np.hypot(R["centre"] - R["ylow"][:, :-1], Z["centre"] - Z["ylow"][:, :-1]) + np.hypot(R["ylow"][:, 1:] - R["centre"], Z["ylow"][:, 1:] - Z["centre"])
         arc = m["hy"]["centre"] * dy
         n += arc.size
-        bad = ~((arc >= chord * (1 - 1e-4)) & (arc <= two * tol_hi))
+        # absolute accuracy of the arc length: second order in 1/Nfine of the contour's length
+        # (what the property states); relative 1e-4 on top
+        nfine = float(d["cfg"]["options"].get("finecontour_Nfine", 100))
+        if "poloidal_distance" in m and "ylow" in m["poloidal_distance"]:
+            pd = m["poloidal_distance"]["ylow"]
+            length = (np.nanmax(pd, axis=1) - np.nanmin(pd, axis=1))[:, None]
+        else:
+            length = arc.sum(axis=1)[:, None]
+        slack = length / nfine**2
+        bad = ~((arc >= chord * (1 - 1e-4) - slack) & (arc <= two * tol_hi))
         for i, j in np.argwhere(bad)[:2]:
             fails.append(dict(region=r["name"], i=int(i), j=int(j), arc=float(arc[i, j]), chord=float(chord[i, j]), two_chords=float(two[i, j])))
-    return result("chord <= hy dy <= 1.25 x two-chord path through the cell centre", n, fails, None, tol_hi)
+    return result("chord - L/Nfine^2 <= hy dy <= 1.25 x two-chord path through the cell centre", n, fails, None, tol_hi)
 
 
 # ----------------------------------------------------------------- C03
